@@ -4,7 +4,8 @@ import YaegiVerif.Model.Cfg
    run FUEL (funs BODY…) MAIN   → y=<normal|panic|fuel>:<v1,v2,…> g=<normal|panic|fuel>:<v1,v2,…> n=<instructions>
    EXPR  = (lit n) | (var i) | (bin add|sub|mul|and|or|xor|quo|rem a b) | (neg a) | (cpl a)
    BEXPR = (cmp eq|ne|lt|le|gt|ge a b) | (not a) | (land a b) | (lor a b)
-   STMT  = skip | brk | cont | (seq a b) | (assign i e) | (print e) | (ite c t e) | (loop c body post)
+   STMT  = skip | brk | cont | (brkL n) | (contL n)   -- break L / continue L, L = n-th enclosing loop, 0 = innermost
+         | (seq a b) | (assign i e) | (print e) | (ite c t e) | (loop c body post)
          | (ret e) | (call x g e…)   -- x = f_g(e…); parameters are the callee's variables 0…
          | (switch (c BEXPR STMT fall) …)   -- clauses in order; default = last clause with a true condition -/
 namespace YaegiVerif.Driver.C01
@@ -38,6 +39,8 @@ partial def parseStmt : Sexp → Option Stmt
   | .atom "skip" => some .skip
   | .atom "brk" => some .brk
   | .atom "cont" => some .cont
+  | .list [.atom "brkL", n] => n.nat?.map .brkL
+  | .list [.atom "contL", n] => n.nat?.map .contL
   | .list [.atom "seq", a, b] => do some (.seq (← parseStmt a) (← parseStmt b))
   | .list [.atom "assign", i, e] => do some (.assign (← i.nat?) (← parseExpr e))
   | .list [.atom "print", e] => do some (.print (← parseExpr e))
@@ -54,6 +57,21 @@ partial def parseClauses : List Sexp → Option Clauses
   | _ => none
 end
 
+mutual
+/-- every labelled break / continue names an enclosing loop (what the Go compiler requires) -/
+def closed : Nat → Stmt → Bool
+  | d, .brkL n => n < d
+  | d, .contL n => n < d
+  | d, .seq a b => closed d a && closed d b
+  | d, .ite _ t e => closed d t && closed d e
+  | d, .loop _ body post => closed (d + 1) body && closed d post
+  | d, .switch cs => closedC d cs
+  | _, _ => true
+def closedC : Nat → Clauses → Bool
+  | _, .nil => true
+  | d, .cons _ body _ rest => closed d body && closedC d rest
+end
+
 def showOut (vs : List Val) : String := ",".intercalate (vs.map fun v => toString v.toInt)
 
 def handle (args : List Sexp) : String :=
@@ -61,6 +79,7 @@ def handle (args : List Sexp) : String :=
   | [.atom "run", fuel, .list (.atom "funs" :: fbodies), prog] =>
     (match fuel.nat?, parseStmt prog, fbodies.mapM parseStmt with
      | some f, some p, some fs =>
+       if !(closed 0 p && fs.all (closed 0)) then "bad-op" else
        let st0 : St := { vars := fun _ => 0, out := [] }
        let code := compileProg fs p
        let y := match runFuel code f (.run 0 st0 []) with
